@@ -17,6 +17,8 @@ func checkC17(c *Check) {
 	c.attrIteration("C17.1 attribute-iteration", "C17.1 duplicates-and-overruns")
 	c.errorAccumulation("C17.2 error-accumulation")
 	c.mandatoryAttrs("C17.3 mandatory-attributes")
+	c.bitmapAgreement("C17.3 seen-bitmap-agreement")
+	c.decoderStateless("C17.3 decoder-stateless")
 	c.notificationFromErr("C17.4 severity-mapping")
 	_ = p
 }
